@@ -27,6 +27,19 @@ func (t *c19Transporter) Do(ctx context.Context, req msg.Message, laneKey, recvM
 func (t *c19Transporter) Dispatch(m msg.Message, laneKey string) bool                  { return false }
 func (t *c19Transporter) DispatchWithType(m msg.Message, msgType, laneKey string) bool { return false }
 
+// pseudo message: a wrapper for this name was started (its status worker will register it)
+type c19Started struct{ name string }
+
+var c19Tr *c19Transporter
+
+// stub for (*Wrapper).Start: the real method, its call recorded in the same log as the messages
+func c19StubWrapperStart(pw *Wrapper) {
+	if c19Tr != nil {
+		c19Tr.sent = append(c19Tr.sent, &c19Started{name: pw.Name})
+	}
+	pw.Start()
+}
+
 // number of NewProxy / CloseProxy messages for a proxy name, and the kind of the last one
 func (t *c19Transporter) count(name string) (news, closes int, last string) {
 	for _, m := range t.sent {
@@ -99,6 +112,8 @@ func c19SameInts(a, b []int) bool {
 // not change keep the same running wrapper (no re-registration).
 func VerifC19ProxyUpdate() {
 	tr := &c19Transporter{}
+	c19Tr = tr
+	defer func() { c19Tr = nil }()
 	pm := NewManager(context.Background(), &v1.ClientCommonConfig{}, tr, nil)
 	reloads := zzverif.Param("reloads", 2)
 	maxLen := zzverif.Param("maxLen", 3)
@@ -117,7 +132,19 @@ func VerifC19ProxyUpdate() {
 		for _, e := range cur {
 			cfgs = append(cfgs, c19Cfg(e.name, e.version))
 		}
+		mark := len(tr.sent)
 		pm.UpdateAll(cfgs)
+		// the old entry of a name is withdrawn at the server before its replacement is started: a
+		// CloseProxy that follows the replacement's registration would tear the new one down
+		for i := mark; i < len(tr.sent); i++ {
+			if st, ok := tr.sent[i].(*c19Started); ok {
+				for j := i + 1; j < len(tr.sent); j++ {
+					if cl, isClose := tr.sent[j].(*msg.CloseProxy); isClose {
+						zzverif.Assert(cl.ProxyName != st.name, "C19.update.old-entry-withdrawn-before-its-replacement-starts")
+					}
+				}
+			}
+		}
 
 		for _, n := range c19Names {
 			oldDefs, newDefs := c19Defs(prev, n), c19Defs(cur, n)
